@@ -1,7 +1,8 @@
 ------------------------------ MODULE Davidson ------------------------------
 (***************************************************************************)
 (* The subspace iteration of xitorch's Davidson eigensolver.  The search   *)
-(* space starts with nguess orthonormal vectors; every iteration solves    *)
+(* space starts with nguess orthonormal vectors (option nguess, at least    *)
+(* neig and by default neig); every iteration solves    *)
 (* the projected problem, keeps the best Ritz pairs seen (smallest         *)
 (* residual), stops if the residual is below min_eps or the space has      *)
 (* reached the full dimension na (the Ritz pairs are then exact), and      *)
@@ -20,7 +21,7 @@ VARIABLES na, neig, nguess, it, applied,   \* applied: sequence of column counts
 vars == <<na, neig, nguess, it, applied, residOk, best, cur, pc, ret>>
 Min(a, b) == IF a < b THEN a ELSE b
 Init == /\ na \in 1..MaxNA /\ neig \in 1..MaxNA /\ neig <= na
-        /\ nguess = neig /\ it = 0 /\ applied = <<neig>> /\ residOk = FALSE /\ best = 0 /\ cur = 0 /\ pc = "loop" /\ ret = 0
+        /\ nguess \in neig..na /\ it = 0 /\ applied = <<nguess>> /\ residOk = FALSE /\ best = 0 /\ cur = 0 /\ pc = "loop" /\ ret = 0
 \* one iteration: Ritz step, then stop or expand
 Iterate(ok, improved) ==
    /\ pc = "loop" /\ it < MaxIter
